@@ -96,6 +96,10 @@ pub struct TSpec {
     /// the main thread exits after setup (zombie thread-group leader); no commands afterwards
     #[serde(default)]
     pub leader_exit: bool,
+    /// soft stack limit (MiB) in force when the target is executed: the kernel allows a quarter of it
+    /// (at most 6 MiB) for argv + environment
+    #[serde(default)]
+    pub exec_stack_mb: Option<u32>,
 }
 
 fn hex(b: &[u8]) -> String {
@@ -252,6 +256,19 @@ impl Target {
             cmd.env(std::ffi::OsStr::from_bytes(k), std::ffi::OsStr::from_bytes(v));
         }
         cmd.stdin(Stdio::piped()).stdout(Stdio::piped()).stderr(Stdio::null());
+        if let Some(mb) = spec.exec_stack_mb {
+            use std::os::unix::process::CommandExt;
+            let cur = (mb as u64) << 20;
+            unsafe {
+                cmd.pre_exec(move || {
+                    let mut rl = libc::rlimit { rlim_cur: 0, rlim_max: 0 };
+                    libc::getrlimit(libc::RLIMIT_STACK, &mut rl);
+                    rl.rlim_cur = cur.min(rl.rlim_max);
+                    libc::setrlimit(libc::RLIMIT_STACK, &rl);
+                    Ok(())
+                });
+            }
+        }
         let mut child = cmd.spawn().map_err(|x| e("spawn tgt", x))?;
         let pid = child.id() as i32;
         super::helpers::register_child(pid);
